@@ -8,6 +8,7 @@ CONSTANTS
   Routes = {"inst", "kwargs", "argv"}
   Layouts = {"flat", "nested"}
   Slim = TRUE
+  Spells = {"same"}
   HistKinds = {}
   MaxLookups = 0
 INVARIANT LayeringFollowsDocs
